@@ -271,3 +271,7 @@ Proof.
 Qed.
 Theorem write_vtt_c_no_panic d so ro p : write_vtt_c d so ro <> Panic p.
 Proof. rewrite write_vtt_c_ok. unfold write_vtt. destruct (vd_items d); discriminate. Qed.
+
+(* ---- nil elements inside Items: skipped (nonNilItems) ---- *)
+Theorem write_vtt_items_c_no_panic items d so ro p : write_vtt_items_c items d so ro <> Panic p.
+Proof. apply write_vtt_c_no_panic. Qed.
